@@ -233,7 +233,7 @@ theorem facts_first_line_segment :
 /-- HardwrapScanner.Scan.  Model (`hardScan`, `hardLoop`):
 ```
 if cells.isEmpty then none else some (hardLoop [] cells)      -- len(h.cells) == 0 ⇒ false; h.line = []
-| line, c :: cs => if c.nl then                               -- cell.Grapheme == "\n"
+| line, c :: cs => if c.nl then                               -- HasTrailingLineBreakInString(cell.Grapheme)
     if cs.isEmpty then (line, [])                             -- i == len(h.cells)-1 ⇒ break ⇒ h.cells = []; true
     else (line, cs)                                           -- h.cells = h.cells[i+1:]; return true
   else hardLoop (line ++ [c]) cs                              -- h.line = append(h.line, cell)
@@ -243,7 +243,7 @@ theorem facts_hardwrap :
     hardEntry = ("", [("len(R.cells)", "==", "0")]) ∧ hardEntryActs = ["return false"] ∧
     hardPre = ["R.line=EMPTY"] ∧ hardRange = "for K,E:=range R.cells" ∧
     hardBody = [
-      (("", [("E.Grapheme", "==", "\"\\n\"")]),
+      (("", [("uniseg.HasTrailingLineBreakInString(E.Grapheme)", "", "")]),
         ["if (K==(len(R.cells)-1)) {", "break", "}", "R.cells=R.cells[(K+1):]", "return true"]),
       (("always", []), ["R.line=append(R.line,E)"])] ∧
     hardPost = ["R.cells=EMPTY", "return true"] := by
